@@ -16,6 +16,11 @@ UNITS = {
         'engine': 'verus', 'complete': True,
         'title': 'toml_edit parser RecursionCheck: LIMIT small, check_depth/enter/exit contracts (unbounded)',
     },
+    'V3m': {
+        'engine': 'verus', 'complete': True, 'witness': ['witness-c05'], 'replay': 'replay-c05',
+        'witness_required': ['V3m/lemma:lemma_nesting_product_small'],
+        'title': 'the two nesting budgets combined: counter (LIMIT - 1 containers) x dotted-key length (LIMIT - 1 segments, not charged to the counter) must stay within the small constant C05 demands',
+    },
     'V4': {
         'engine': 'verus', 'complete': True,
         'title': 'calendar rule (both copies), standalone time/offset range checks: statement slices (unbounded)',
@@ -231,7 +236,7 @@ PLAN = {
     'C11': {'quick': ['K7', 'K7s', 'K6e', 'K6t', 'K6d', 'V8', 'V12', 'K11f', 'K11s'], 'thorough': ['K7', 'K7s', 'K6e', 'K6t', 'K6d', 'V8', 'V12', 'K11f', 'K11s']},
     'C01': {'quick': ['K1', 'K7', 'V3', 'V4', 'V8', 'V9', 'V16', 'K2'], 'thorough': ['K1', 'K7', 'V3', 'V4', 'V8', 'V9', 'V16', 'K2', 'K2y', 'K5']},
     'C02': {'quick': ['K2', 'K7s', 'K6t', 'K6d', 'V5', 'V7', 'V8', 'V9', 'V11', 'V12', 'V15'], 'thorough': ['K2', 'K2y', 'K7s', 'K6t', 'K6d', 'V5', 'V7', 'V8', 'V9', 'V11', 'V12', 'V15', 'K5']},
-    'C05': {'quick': ['V3', 'K12'], 'thorough': ['V3', 'K12']},
+    'C05': {'quick': ['V3', 'V3m', 'K12'], 'thorough': ['V3', 'V3m', 'K12']},
     'C12': {'quick': ['V4', 'V5', 'V6', 'V7', 'V11', 'K2', 'K3q'], 'thorough': ['V4', 'V5', 'V6', 'V7', 'V11', 'K2', 'K2y', 'K3q', 'K3t', 'K3a']},
     'C14': {'quick': ['K11', 'K14', 'K14r', 'K14s', 'K14d', 'V14'], 'thorough': ['K11', 'K14', 'K14r', 'K14r8', 'K14s', 'K14d', 'V14']},
     'C15': {'quick': ['V10', 'V13', 'K8'], 'thorough': ['V10', 'V13', 'K8', 'K8t']},
